@@ -64,9 +64,9 @@ CLAIMS = {
   note=COMMON_NOTE + " The instance expansion is modelled (fuel-bounded recursion through by-name block lookup) and validated, not proved equal to a declarative instance set.",
   technique="Lean 4 proof (soundness and completeness of the pairwise scan) + differential correspondence + brute-force oracle", ref="3.12"),
  "C13": dict(
-  text="Lean 4 obligations (DDV.Props.C13): the Integer::{min,max}_value table re-extracted from the source equals the two's-complement ranges of the model; the bound checks and the min/max analysis are modelled literally, including their i64 overflow panics. The full statement (every reachable address fits, no overflow on the way) is false of the current tree in five recorded ways (F6a enclosing block repeats, F6b block-ref children, F6c product overflow in the internal type, F15 negative literal in an unsigned internal type, F16 i64 overflow panics), each with a class predicate in known_findings.json; outside those classes the exact oracle (all instances, and the emitted arithmetic evaluated in the internal type) and the compiled probe with overflow checks find no misfit. The reachability theorem for the analysed fragment is still to be added.",
-  note=COMMON_NOTE + " For this property the Lean side currently carries table obligations and the model; the for-all claim rests on the oracle over generated trees (partial).",
-  technique="Lean 4 obligations over extracted tables + exact address oracle + differential correspondence + compiled probe (partial: analysis incomplete, five recorded findings)", ref="3.13"),
+  text="Lean 4 theorems (DDV.Props.C13, lemmas in DDV.Gen.Lemmas.MinMax): analysis_covers_every_visited_instance (for every object tree, filter and run of the depth-tracked min/max walk - modelled with its offset stack, lazy pops and i64 overflow panics - that returns (mn,mx): mn<=0<=mx and every instance of every selected object, taken at the sum of its enclosing blocks' offsets, lies in [mn,mx]; stack invariant + mutual structural induction), reachable_in_range_partial (hence, without repeated blocks, every address the driver computes for the kind fits the address type whenever the pass accepts), the full statement Full kept and proved false of the current tree by full_counterexample (finding F6a; a repeated block's stride is not applied to its contents), and the Integer::{min,max}_value table re-extracted from the source equal to the two's-complement ranges. The other recorded gaps (F6b block-ref children, F6c product overflow in the internal type, F15 negative literal in an unsigned internal type, F16 i64 overflow panics) have class predicates in known_findings.json; outside those classes the exact oracle (all instances, emitted arithmetic evaluated in the internal type) and the compiled probe with overflow checks find no misfit.",
+  note=COMMON_NOTE + " The reachability theorem covers the MIR analysis; the internal-type arithmetic of the emitted accessors (F6c/F15) is covered by the oracle and the compiled probe, not by a theorem.",
+  technique="Lean 4 proof (stack-invariant refinement of the min/max walk, partial: no repeated blocks / block refs; counterexample theorem for the full statement) + exact address oracle + differential correspondence + compiled probe", ref="3.13"),
  "C14": dict(
   text="Lean 4 theorems (DDV.Props.C14): refs_accept_iff (refs_validated accepts iff every block / register / command ref targets an existing object of the kind its override states; rejection is a reported error with two names, never a panic), ref_resolves_anywhere (with distinct names the depth-first lookup finds exactly the object of that name wherever it is declared), ref_to_buffer_or_ref_rejected and override_layout_keys_rejected (both front ends), device_name_check, and the pass-order obligation re-extracted from run_passes (refs validated before anything dereferences them — the order was wrong on the original tree: finding F7, repaired by a fix: commit). Name uniqueness is validated by correspondence and an oracle using the real convert_case result per case.",
   note=COMMON_NOTE + " cfg-free definitions; convert_case opaque.",
